@@ -259,7 +259,74 @@ def run_pipeline(case):
     return {"ok": err is None, "error": err, "obs": obs, "final": final, "digest": digest}
 
 
-out = {"results": [], "big": [], "pipeline": []}
+def default_probe():
+    """A short exactness / duplicate-blindness history on an UNPOKED default instance (None = passes)."""
+    try:
+        h = HyperLogLogWCache()
+        seen = set()
+        for k in range(300):
+            v = "probe%d" % ((k * 7) % 120)
+            before = length(h)
+            h.add(v)
+            if v in seen and length(h) != before:
+                return "re-adding %r changed len from %d to %d" % (v, before, length(h))
+            seen.add(v)
+            if length(h) != len(seen) or h.hll_flag:
+                return "len %d after %d distinct values" % (length(h), len(seen))
+        return None
+    except Exception as e:
+        return "%s: %s" % (type(e).__name__, e)
+
+
+def run_pipeline_big(spec):
+    """compute_cardinalities at real size (untouched class): an id-like column whose number of distinct cells crosses the
+    warm-up capacity inside the second mini-batch, a third mini-batch of repeats only, and a small second column."""
+    import pandas as pd
+    import outrank.core_ranking as cr
+    from outrank.core_utils import internal_hash
+    g = HyperLogLogWCache()
+    p, W = int(g.p), int(g.warmup_size)
+    r = random.Random(spec["seed"])
+    n1, n2 = W - spec.get("before", 50), spec.get("new", 120)
+    vals = ["id%d_%d" % (spec["seed"], i) for i in range(n1 + n2)]
+    b1 = list(range(n1)) + [r.randrange(n1) for _ in range(500)]
+    b2 = [r.randrange(n1) for _ in range(300)] + list(range(n1, n1 + n2)) + [r.randrange(n1 + n2) for _ in range(300)]
+    b3 = [r.randrange(n1 + n2) for _ in range(1000)]
+    r.shuffle(b1)
+    r.shuffle(b2)
+    cr.GLOBAL_CARDINALITY_STORAGE.clear()
+    cr.GLOBAL_COUNTS_STORAGE.clear()
+    res = {"ok": True, "error": None, "consts": {"p": p, "m": int(g.m), "warmup_size": W, "width": int(g.width)}, "obs": [],
+           "cum_distinct": [], "cum_small": []}
+    order, index = [], {}
+    small_seen = set()
+    try:
+        for chunk in (b1, b2, b3):
+            df = pd.DataFrame({"id": [vals[i] for i in chunk], "k": [i % 7 + 1 for i in chunk]})
+            for i in chunk:
+                d = internal_hash(str(vals[i]))
+                if d not in index:
+                    index[d] = len(order)
+                    order.append(d)
+                small_seen.add(internal_hash(str(i % 7 + 1)))
+            cr.compute_cardinalities(df, _Bar(), 10 ** 6)
+            res["obs"].append({c: [length(cr.GLOBAL_CARDINALITY_STORAGE[c]), bool(cr.GLOBAL_CARDINALITY_STORAGE[c].hll_flag)]
+                               for c in df.columns})
+            res["cum_distinct"].append(len(order))
+            res["cum_small"].append(len(small_seen))
+    except Exception as e:
+        res["ok"], res["error"] = False, "%s: %s" % (type(e).__name__, e)
+    res["hashes"] = b64(np.array([xxhash.xxh32(d.encode("utf-8"), seed=p).intdigest() for d in order], dtype=np.uint32))
+    cr.GLOBAL_CARDINALITY_STORAGE.clear()
+    cr.GLOBAL_COUNTS_STORAGE.clear()
+    return res
+
+
+out = {"results": [], "big": [], "pipeline": [], "pipeline_big": []}
+if payload.get("default_probe"):
+    out["default_probe"] = default_probe()
+for s in payload.get("pipeline_big", []):
+    out["pipeline_big"].append(run_pipeline_big(s))
 for c in payload.get("pipeline", []):
     out["pipeline"].append(run_pipeline(c))
 for c in payload.get("cases", []):
